@@ -1,6 +1,6 @@
 """Model-side encodings that need no optree (usable from the check runner's plain python3)."""
 
-KINT, KSTR, KFLT, KORD, KUNORD, KNEST, KTIE = 0, 1, 2, 3, 4, 5, 6
+KINT, KSTR, KFLT, KORD, KUNORD, KNEST, KTIE, KTUP = 0, 1, 2, 3, 4, 5, 6, 7
 
 
 def T(k, id=-1, ch=(), keys=(), meta=0, cls=0, ent=(), hasent=False, fault=''):
